@@ -12,7 +12,7 @@
 //! Code sweeps: all 4 x 65 536 A-ASSOCIATE-RJ (result, source, reason) and all 65 536 A-ABORT
 //! (source, reason) byte patterns: codes defined by the standard must be read and written back
 //! unchanged (where significant); nothing may panic.
-//! Strict mode: PDU length max-1 / max / max+1 for max in {1018, 16 378, 65 536}.
+//! Strict mode: every PDU kind at PDU length max-1 / max / max+1 for max in {1018, 16 378, 65 536}.
 use dicom_ul::pdu::*;
 use vx_kit::{guard, json, Check, Level, Local, Value};
 use vx_ref::pdu as rp;
@@ -856,26 +856,106 @@ fn sweep_abort(l: &mut Local, source: u8) {
     }
 }
 
-/// strict mode: PDU length max-1, max, max+1
+/// A PDU of the given kind whose PDU-length field is exactly `len`, built by the reference encoder
+/// (or, for the fixed-length kinds, padded with zero bytes after the 4 defined bytes).
+/// Returns (bytes, conforms to the grammar).
+fn strict_pdu(kind: &str, len: u32) -> (Vec<u8>, bool) {
+    let len = len as usize;
+    let assoc = |is_rq: bool, users: Vec<RUserItem>, n_pcs: usize| -> RPdu {
+        let mut head = RAssocHead::new("SCP", "SCU");
+        head.user_info = Some(users);
+        if is_rq {
+            RPdu::AssociateRq {
+                head,
+                pcs: (0..n_pcs).map(|i| RPcRq { id: (2 * i + 1) as u8, abstract_syntax: b"1.2".to_vec(), transfer_syntaxes: vec![b"1.3".to_vec()] }).collect(),
+            }
+        } else {
+            RPdu::AssociateAc { head, pcs: (0..n_pcs).map(|i| RPcAc { id: (2 * i + 1) as u8, result: (i % 5) as u8, transfer_syntax: b"1.3".to_vec() }).collect() }
+        }
+    };
+    let body_len = |p: &RPdu| rp::encode(p).unwrap().len() - 6;
+    let padded = |t: u8, first: [u8; 4]| {
+        let mut b = first.to_vec();
+        b.resize(len, 0);
+        rp::frame(t, &b).unwrap()
+    };
+    match kind {
+        "pdata" => (rp::encode(&RPdu::PData(vec![RPdv::new(1, false, true, vec![3; len - 6])])).unwrap(), true),
+        "pdata-2pdv" => (rp::encode(&RPdu::PData(vec![RPdv::new(1, true, true, vec![3; 10]), RPdv::new(1, false, true, vec![4; len - 22])])).unwrap(), true),
+        "unknown" => (rp::encode(&RPdu::Unknown { pdu_type: 0x09, data: vec![3; len] }).unwrap(), true),
+        "rq-big-user-item" | "ac-big-user-item" => {
+            let is_rq = kind.starts_with("rq");
+            let base = body_len(&assoc(is_rq, vec![RUserItem::MaxLength(16384), RUserItem::Unknown { item_type: 0x5A, data: vec![] }], 1));
+            (rp::encode(&assoc(is_rq, vec![RUserItem::MaxLength(16384), RUserItem::Unknown { item_type: 0x5A, data: vec![7; len - base] }], 1)).unwrap(), true)
+        }
+        "rq-many-contexts" | "ac-many-contexts" => {
+            let is_rq = kind.starts_with("rq");
+            // as many small presentation contexts as fit, the rest made up by the version name
+            let one = body_len(&assoc(is_rq, vec![], 2)) - body_len(&assoc(is_rq, vec![], 1));
+            let base = body_len(&assoc(is_rq, vec![RUserItem::ImplVersionName(vec![])], 0));
+            let n = (len - base) / one;
+            let rest = len - base - n * one;
+            (rp::encode(&assoc(is_rq, vec![RUserItem::ImplVersionName(vec![b'V'; rest])], n)).unwrap(), true)
+        }
+        "rj-padded" => (padded(rp::T_ASSOCIATE_RJ, [0, 1, 1, 1]), false),
+        "release-rq-padded" => (padded(rp::T_RELEASE_RQ, [0; 4]), false),
+        "release-rp-padded" => (padded(rp::T_RELEASE_RP, [0; 4]), false),
+        "abort-padded" => (padded(rp::T_ABORT, [0, 0, 2, 1]), false),
+        _ => unreachable!(),
+    }
+}
+
+const STRICT_KINDS: &[&str] = &[
+    "pdata",
+    "pdata-2pdv",
+    "unknown",
+    "rq-big-user-item",
+    "ac-big-user-item",
+    "rq-many-contexts",
+    "ac-many-contexts",
+    "rj-padded",
+    "release-rq-padded",
+    "release-rp-padded",
+    "abort-padded",
+];
+
+/// strict mode: every PDU kind at PDU length max-1, max, max+1
 fn strict_cases(l: &mut Local) {
     for max in [1018u32, 16_378, 65_536] {
         for (dname, len) in [("max-1", max - 1), ("max", max), ("max+1", max + 1)] {
-            for kind in ["pdata", "unknown"] {
+            for &kind in STRICT_KINDS {
+                if max == 65_536 && (kind.contains("big-user-item") || kind.contains("many-contexts")) {
+                    // a user information item cannot exceed 65 535 bytes; many contexts is covered below that
+                    if kind.contains("big-user-item") {
+                        continue;
+                    }
+                }
                 let case_id = format!("strict/{max}/{dname}/{kind}");
                 if !l.want(&case_id) {
                     continue;
                 }
                 l.eval();
                 l.nontrivial(&case_id);
-                let p = if kind == "pdata" {
-                    RPdu::PData(vec![RPdv::new(1, false, true, vec![3; len as usize - 6])])
-                } else {
-                    RPdu::Unknown { pdu_type: 0x09, data: vec![3; len as usize] }
+                let (bytes, conforming) = strict_pdu(kind, len);
+                assert_eq!(u32::from_be_bytes([bytes[2], bytes[3], bytes[4], bytes[5]]), len, "{case_id}");
+                if conforming {
+                    if let Err(e) = rp::parse(&bytes, &rp::ParseOpts::default()) {
+                        l.check.machinery_error(&format!("{case_id}: reference parser rejects the generated PDU: {e}"));
+                        continue;
+                    }
+                }
+                let pdu_kind = match bytes[0] {
+                    1 => "ARQ",
+                    2 => "AAC",
+                    3 => "ARJ",
+                    4 => "DATA",
+                    5 => "RRQ",
+                    6 => "RRP",
+                    7 => "ABORT",
+                    _ => "UNK",
                 };
-                let bytes = rp::encode(&p).unwrap();
-                assert_eq!(u32::from_be_bytes([bytes[2], bytes[3], bytes[4], bytes[5]]), len);
                 for strict in [true, false] {
-                    let class = json!({"family": "strict", "sub": dname, "kind": p.kind(), "stage": "read", "effect": format!("strict={strict}")});
+                    let class = json!({"family": "strict", "sub": kind, "kind": pdu_kind, "stage": "read", "effect": format!("{dname}-strict={strict}")});
                     let r = guard(|| read_pdu(&bytes[..], max, strict).map_err(|e| e.to_string()));
                     let must_reject = strict && len > max;
                     match r {
@@ -884,12 +964,15 @@ fn strict_cases(l: &mut Local) {
                             l.fail(&case_id, class, json!({"panic": pm}));
                         }
                         Ok(Err(e)) if must_reject => l.outcome_with("strict-too-long-rejected", || json!({"case": case_id, "error": e})),
+                        // padded fixed-length PDUs are outside the grammar: rejecting them is fine too
+                        Ok(Err(_)) if !conforming => l.outcome("strict-padded-rejected"),
                         Ok(Ok(Some(q))) if !must_reject => {
-                            if rp::encode(&to_ref(&q)).ok().as_deref() == Some(&bytes[..]) {
-                                l.outcome("strict-within-limit-read");
+                            let same_kind = to_ref(&q).kind() == pdu_kind;
+                            if same_kind && (!conforming || rp::encode(&to_ref(&q)).ok().as_deref() == Some(&bytes[..])) {
+                                l.outcome(if conforming { "strict-within-limit-read" } else { "strict-padded-read" });
                             } else {
                                 l.outcome("strict-read-differs");
-                                l.fail(&case_id, class, json!({"message": "read back a different PDU"}));
+                                l.fail(&case_id, class, json!({"message": "read back a different PDU", "read": describe(&q)}));
                             }
                         }
                         other => {
@@ -909,7 +992,7 @@ fn strict_cases(l: &mut Local) {
 
 fn main() {
     let check = Check::from_args("C25", Level::Exploration);
-    check.set_rule("PDU values: A-ASSOCIATE-RQ/AC over (every list of <=3 (thorough 4) user items of distinct kinds from a 47-item alphabet covering all 7 user-variable kinds, all 5 identity types, payloads empty/1/odd/even, + reversed pairs + same-kind pairs) and over (AE titles x protocol version x application context x every list of 0-2 (thorough 0-3) presentation contexts with 0-2 transfer syntaxes, ids {1,255}, all 5 result reasons); every reject/abort value; release; unknown types {00,08,FF}; P-DATA with 0-3 PDVs of 0-3 bytes; boundary family: 16 variable-length fields x sizes 65515..=65537 (thorough 65480..=65540), 70000, 131080; every prefix of every small PDU x strict on/off; all 4x65536 reject and 65536 abort code patterns; strict-mode lengths max-1/max/max+1. A case is one PDU value; non-trivial = write_pdu was called and the oracle compared");
+    check.set_rule("PDU values: A-ASSOCIATE-RQ/AC over (every list of <=3 (thorough 4) user items of distinct kinds from a 47-item alphabet covering all 7 user-variable kinds, all 5 identity types, payloads empty/1/odd/even, + reversed pairs + same-kind pairs) and over (AE titles x protocol version x application context x every list of 0-2 (thorough 0-3) presentation contexts with 0-2 transfer syntaxes, ids {1,255}, all 5 result reasons); every reject/abort value; release; unknown types {00,08,FF}; P-DATA with 0-3 PDVs of 0-3 bytes; boundary family: 16 variable-length fields x sizes 65515..=65537 (thorough 65480..=65540), 70000, 131080; every prefix of every small PDU x strict on/off; all 4x65536 reject and 65536 abort code patterns; strict mode: every PDU kind (P-DATA 1 and 2 PDVs, unknown, A-ASSOCIATE-RQ/AC made long by one big user item and by many presentation contexts, zero-padded RJ/release/abort) at PDU length max-1/max/max+1 for max in {1018, 16378, 65536}. A case is one PDU value; non-trivial = write_pdu was called and the oracle compared");
     check.assume("vx-ref PS3.8 codec (written from the standard) and the field-meaning translation to_ref are the trusted base");
 
     let cases = small_universe(check.thorough());
